@@ -10,6 +10,7 @@ import PdbModel.DriverC08
 import PdbModel.DriverC09
 import PdbModel.DriverC11
 import PdbModel.DriverC10
+import PdbModel.DriverC18
 namespace PdbModel
 
 def parseLevels (t : String) : Option (List ErrorLevel) :=
@@ -45,6 +46,7 @@ def handle (line : String) : String :=
   | "c09" :: rest => (handleC09 rest).getD "BAD-REQUEST"
   | "c11" :: rest => (handleC11 rest).getD "BAD-REQUEST"
   | "c10" :: rest => (handleC10 rest).getD "BAD-REQUEST"
+  | "c18" :: rest => (handleC18 rest).getD "BAD-REQUEST"
   | _ => "BAD-REQUEST"
 
 end PdbModel
